@@ -157,21 +157,29 @@ def run(rep):
         if r is not None and r[0] == 'hole':
             scr = collect_scrutinees(r[2]).get('TypeInner', [])
             if len(scr) == 1 and scr[0] == ('f', ('f', be, TYPE_F), 'inner'):
-                kinds2 = table_kinds(r[2], scr[0], lambda s: 'buffer' if ':: Buffer (' in s else 'texture' if ':: TextureView (' in s else 'sampler' if ':: Sampler (' in s else s)
-                for v, k in kinds2.items():
-                    if k is None:
+                # the whole entry is instantiated for each kind of resource type (holes that depend on the binding stay symbolic) and read as text, so
+                # it does not matter which template holds the `(bindings.<field>)` part
+                entry_re = _re.compile(r'wgpu :: BindGroupEntry \{ binding : \S+ , resource : wgpu :: BindingResource :: (\w+) \( bindings \. #(\w+) \) ,? ?\}')
+                all_holes = {}
+                E.walk(et, lambda x: all_holes.update({k_: v_ for k_, v_ in E.holes(x).items() if k_ not in all_holes}) if x[0] == 'tmpl' else None)
+                texts = table_kinds(et, scr[0], lambda s_: ' '.join(str(s_).split()))
+                seen_kinds = set()
+                for v, txt in texts.items():
+                    if txt is None:
                         continue
+                    m_ = entry_re.search(txt)
+                    k = {'Buffer': 'buffer', 'TextureView': 'texture', 'Sampler': 'sampler'}.get(m_.group(1), m_.group(1)) if m_ else txt
                     rep.check(k == KINDS[v], 'C04.R2.resource-kind', f'resource-kind:{v}', where, f'a {v} resource is bound as {k}; expected {KINDS[v]}', ok_detail=f'{v} -> {k}')
                     if kinds1 is not None:
                         rep.check(kinds1.get(v) == k, 'C04.R2.resource-kind', f'resource-kind-agrees:{v}', where, f'field kind {kinds1.get(v)} vs entry kind {k} for {v}', ok_detail='field and entry agree')
-                rts = E.find_templates(r[2], lambda t: 'wgpu :: BindingResource ::' in E.tmpl_text(t))
-                for t in rts:
-                    hv = list(E.holes(t).values())
-                    txt = E.tmpl_text(t)
-                    ok = len(hv) == 1 and hv[0] == ('call', 'Ident::new', [('unwrap', ('f', be, NAME_F))]) and '( bindings . #' in txt
-                    rep.check(ok, 'C04.R2.entry-resource', f'entry-resource:{txt.split("::")[2].split("(")[0].strip()}', where,
-                              f'`{txt}` with {[E.show(x, maxdepth=5) for x in hv]}: the resource is not the field named after the same binding', ok_detail=txt)
-                rep.check(len(rts) == 3, 'C04.R2.entry-resource', 'entry-resource-rows', where, f'{len(rts)} BindingResource rows', ok_detail='3 rows')
+                    if m_:
+                        hv = all_holes.get(m_.group(2))
+                        ok = hv == ('call', 'Ident::new', [('unwrap', ('f', be, NAME_F))])
+                        if m_.group(1) not in seen_kinds:
+                            seen_kinds.add(m_.group(1))
+                            rep.check(ok, 'C04.R2.entry-resource', f'entry-resource:{m_.group(1)}', where,
+                                      f'`{txt}` with {E.show(hv, maxdepth=5) if hv else None}: the resource is not the field named after the same binding', ok_detail=txt)
+                rep.check(seen_kinds == {'Buffer', 'TextureView', 'Sampler'}, 'C04.R2.entry-resource', 'entry-resource-rows', where, f'BindingResource rows: {sorted(seen_kinds)}', ok_detail='3 rows')
             else:
                 rep.bad('C04.R2.resource-kind', 'resource-scrutinee', where, 'resource kind is not decided by the type of the same binding', undecided=True)
     # ---- R3 layout entries ----------------------------------------------------------------------------------------------------------
